@@ -14,7 +14,7 @@ PROP = {
     "assumptions": ["virtual time: a call that has not returned when every goroutine in the bubble is durably blocked is blocked"],
     "units": [
         {"name": "c12", "pkg": "./internal/pkg/reactor", "run": "^TestVerif_C12_", "kind": "rapid", "toolchain": "go126",
-         "facets": ["C12/model", "C12/race-stress"], "checks": (25000, 200000), "shards": (4, 16), "timeout": (600, 3000)},
+         "facets": ["C12/model", "C12/race-stress", "C12/capacity"], "checks": (25000, 200000), "shards": (4, 16), "timeout": (600, 3000)},
         {"name": "c12kf1", "pkg": "./internal/pkg/reactor", "run": "^TestVerifKF_C12_UnknownFeedbackStored$", "kind": "kf", "toolchain": "go126",
          "finding": "C12-unknown-feedback-stored", "facets": [], "checks": (1, 1), "shards": (1, 1)},
         {"name": "c12kf2", "pkg": "./internal/pkg/reactor", "run": "^TestVerifKF_C12_FrozenAcceptsInsert$", "kind": "kf", "toolchain": "go126",
